@@ -126,7 +126,7 @@ def build_host(m):
     # -- classes ----------------------------------------------------------------------
     objs, attrs, oids = {}, {}, {}
     for numb, kl in enumerate(sorted(CLASSES), 1):
-        o_obj = m.new('O_OBJ', Name=kl, Key_Lett=kl, Numb=numb)
+        o_obj = m.new('O_OBJ', Name='Class ' + kl, Key_Lett=kl, Numb=numb)      # name differs from the key letters
         pe(o_obj, 4)
         objs[kl] = o_obj
         for i in range(3):
@@ -248,7 +248,7 @@ def build_host(m):
             host.homes['function'] = s_sync
 
     # -- external entity with bridges ------------------------------------------------------------
-    s_ee = m.new('S_EE', Name=EE, Key_Lett=EE)
+    s_ee = m.new('S_EE', Name='External Entity', Key_Lett=EE)
     pe(s_ee, 5)
     for name in sorted(BRIDGES):
         ret, params = BRIDGES[name]
@@ -1236,7 +1236,8 @@ def record_coverage(ctx, task, an, ok):
     ctx.distinct('home:' + task['home'], repr(task['stmts']))
     ctx.count('family:' + task['family'])
     ctx.count('entry:' + task.get('entry', 'action'))
-    ctx.count('layout:' + str(task.get('layout', 'default')))
+    if task.get('layout') != '-':
+        ctx.count('layout:' + str(task.get('layout', 'default')))
     for f in an.features:
         ctx.distinct('features', f)
     if ok:
@@ -1476,6 +1477,13 @@ def family_statements(tier):
         add(ASSIGN('x', e, True))
     add(ASSIGN('x', V('a')), ASSIGN('y', F('x', 'Num')))            # migrated handle is usable
     add(ASSIGN('xs', V('aset')), ('foreach', 'k', 'xs', [], False))
+    add(ASSIGN('a2', V('a')))                                        # declared handles assigned again
+    add(ASSIGN('a', SELF))
+    add(ASSIGN('aset', BIN('|', V('aset'), V('aset'))))
+    add(ASSIGN('x', V('a')), ASSIGN('x', V('a2')), ASSIGN('y', F('x', 'Num')))
+    add(ASSIGN('xs', V('aset')), ASSIGN('xs', V('aset')), ('foreach', 'k', 'xs', [], False))
+    add(('selfrom', 'any', 'n', 'A', BIN('==', F(SEL, 'Id'), F(SELF, 'Id')), True), ASSIGN('z', SELF))
+    add(('if', V('t'), [ASSIGN('q', SELF)], [], [ASSIGN('q', F(SELF, 'Num'))], [False]), ASSIGN('q', UN('not_empty', SELF)))
     # -- attributes ------------------------------------------------------------------------------------------
     for lhs, e in ((F('a', 'Num'), I(1)), (F('a', 'Num'), BIN('+', F('a', 'Num'), V('i'))), (F('a', 'Flag'), TRUE),
                    (F('a', 'Rate'), R15), (F('a', 'Name'), STR), (F('a', 'Col'), RED), (F(SELF, 'Num'), I(1)),
@@ -1795,7 +1803,7 @@ def all_tasks(tier, seed=0):
     bounds = dict(families=dict((f, dict(candidates=len(p) * len(HOMES), well_formed=counts.get((f, 'kept'), 0)))
                                 for f, p in fams),
                   sequence_bounds=[dict(length=n, menu=w) for n, w in seq_bounds],
-                  nesting_depth=3 if tier == 'quick' else 4,
+                  control_flow_nesting=2 if tier == 'quick' else 3,      # blocks inside blocks below the body
                   expression_depth=3 if tier == 'quick' else 4,
                   chain_steps=2 if tier == 'quick' else 3, homes=HOMES)
     return tasks, bounds
